@@ -3,6 +3,7 @@ import Pbc.Model.Unpack
 import Pbc.Model.Check
 import Pbc.Model.Buf
 import Pbc.Model.HeapUnpack
+import Pbc.Model.Lookup
 /-
   Line-protocol driver: reads the same case file as harness/pbc_harness.c, evaluates the
   Lean model (and the extracted leaves), prints one canonical line per operation.
@@ -294,14 +295,34 @@ def runOp (S : Schema) (op : String) : PM String := do
     if k == "fnum" then
       let n ← tokNat
       -- the public function takes `unsigned value` and passes it on as int
-      match lookupField fields (n % 2 ^ 32) with
+      let v : Int := if n % 2 ^ 32 ≥ 2 ^ 31 then (n % 2 ^ 32 : Nat) - (2 ^ 32 : Nat) else (n % 2 ^ 32 : Nat)
+      match rangeLookup (mkRanges (fields.map (fun f => (f.id : Int)))) v with
       | some i => return s!"idx={i}"
       | none => return "idx=-1"
     else
       let name ← tok
-      match fields.findIdx? (fun f => f.name == name) with
+      let bytesOf (s : String) : List Nat := s.toUTF8.toList.map (·.toNat)
+      let idx := (List.range fields.length).map (fun i => (bytesOf (fields.getD i default).name, i))
+      -- the generator sorts the index by name (std::string compare = byte-wise)
+      let sorted := idx.toArray.qsort (fun a b => cmpBytes a.1 b.1 == .lt) |>.toList
+      match nameLookup sorted (bytesOf name) with
       | some i => return s!"idx={i}"
       | none => return "idx=-1"
+  | "ranges" =>
+    let n ← tokNat
+    let mut runs : Array (Int × Nat) := #[]
+    for _ in [0:n] do
+      let sv ← tokInt
+      let oi ← tokNat
+      runs := runs.push (sv, oi)
+    let _ ← tokInt
+    let total ← tokNat
+    let r : Ranges := ⟨runs.toList, total⟩
+    let mut out := "r="
+    while !(← atEnd) && !((← peek).startsWith "#") do
+      let key ← tokInt
+      out := out ++ (match rangeLookup r key with | some i => toString i | none => "-1") ++ ","
+    return out
   | "leaf" =>
     let fn ← tok
     let s ← get
